@@ -8,6 +8,8 @@ A2  modes_checksum is applied to the whole frame (all bit_len/8 bytes, in order,
     its result is the value stored as Message.crc and as the IcaoParity field of every
     address/parity format (DF 0, 4, 5, 16, 20, 21).
 A3  the index obligations inside modes_checksum.
+A4  no error exit of the DF reader is reachable with a DF id of an address/parity format when the
+    frame is complete (every payload of DF 0, 4, 5, 16, 20, 21 yields its address).
 Not decided: that the byte loop computes polynomial division (and hence the burst-error bound).
 """
 import absint as A
@@ -69,9 +71,13 @@ def run(prog, rep, tier):
         lin = all(table[i] == _xor(table[1 << k] for k in range(8) if i >> k & 1) for i in range(256))
         rep.check(lin, 'T1-crc-table', 'CRC_TABLE#linear', site, 'the table is not GF(2)-linear')
     # ---- A1 / A2
+    # the ADS-B payload (DF17/18) is not an address/parity format: its reader is not needed here
     E.skip_bodies = set(b['name'] for b in prog.bodies.values() if b['kind'] == 'fn' and b['item'] == 'from_reader_with_ctx'
-                        and b.get('impl') and b['impl'].get('self') in ('decode::adsb::ME', 'decode::commb::DF20DataSelector', 'decode::commb::DF21DataSelector'))
-    rep.floor('payload readers skipped (not needed for this property)', len(E.skip_bodies), 3)
+                        and b.get('impl') and b['impl'].get('self') in ('decode::adsb::ME',))
+    rep.floor('payload readers skipped (not needed for this property)', len(E.skip_bodies), 1)
+    dfr = next((b for b in prog.bodies.values() if b['kind'] == 'fn' and b['item'] == 'from_reader_with_ctx'
+                and b.get('impl') and b['impl'].get('self') == 'decode::DF'), None)
+    err_exits = []
     seen = {'checksum_calls': [], 'dispatch': [], 'err': []}
     import models
 
@@ -83,6 +89,14 @@ def run(prog, rep, tier):
         return T('Shr', bt, T('c', 3)) if bt is not None else None
 
     def call_hook(E_, frame, b, t, sts, c):
+        if dfr is not None and frame.body['id'] == dfr['id'] and c.get('item') == 'from_residual':
+            # an error exit of the DF reader: which DF ids can take it?
+            idl = frame.info.dbgname
+            loc = next((l for l, n in idl.items() if n == '__deku_variant_id'), None)
+            for st in sts:
+                iv = E_.scalar(st, st.cells.get((frame.depth, loc), ('T', None, None))) if loc is not None else None
+                err_exits.append((iv, t.get('sp'), b))
+            return
         if frame.body['id'] != rd['id']:
             return
         did = c.get('rdid') or ''
@@ -124,7 +138,33 @@ def run(prog, rep, tier):
     E.hooks[chk['id']] = CrcHook()
     E.call_hook = call_hook
     E.stmt_hook = stmt_hook
+    if dfr is not None:
+        loc = None
+        for nme, p_ in dfr['dbg']:
+            if nme == '__deku_variant_id' and not p_['p']:
+                loc = p_['l']
+        # keep the id local alive in every frame depth the DF reader may run at
+        for d in range(0, 8):
+            E.gc_roots.add((d, loc))
     rets = runner.run_entry(E, msg_try)
+    # A4: a complete frame of an address/parity format is never rejected
+    if dfr is None:
+        rep.missing('DF reader')
+    rep.floor('error exits of the DF reader examined', len(err_exits), 4)
+    bad = {}
+    for iv, sp, b in err_exits:
+        if iv is None or iv[0] != 'I':
+            bad.setdefault(sp, set()).add('?')
+            continue
+        for i in AP_FORMATS:
+            if iv[1] <= i <= iv[2]:
+                bad.setdefault(sp, set()).add(i)
+    for sp, ids in sorted(bad.items(), key=str):
+        rep.fail('A4-every-payload-accepted', 'DF-reader#error-exit#ids=%s' % ','.join(map(str, sorted(ids, key=str))), '%s:%s' % (dfr['file'], sp),
+                 'a field reader can reject a complete DF %s frame (error exit of the DF reader reachable with these ids): the address of such a reply is never reported' % sorted(ids, key=str))
+    if not bad:
+        rep.ok('A4-every-payload-accepted', 'DF-reader#no-error-exit-for-AP-formats', True,
+               {'error_exits_examined': len(err_exits), 'reachable_with_ids_0_4_5_16_20_21': 0})
     n = rep.absorb_engine(E, rule='A3-checksum-indexing', keyfilter=lambda o: o['fn'] == chk['name'])
     rep.floor('obligations inside modes_checksum', n, 6)
     site_rd = '%s:%s' % (rd['file'], rd['line'])
